@@ -270,7 +270,8 @@ NEWTYPE_MAX = {
 
 
 class Interp(object):
-    STEP_BUDGET = 400000
+    STEP_BUDGET = 150000
+    TIME_BUDGET = 10.0          # seconds per run; exceeding it ends the remaining paths as 'lost' (fail closed)
     MAX_DEPTH = 40
 
     def __init__(self, facts, abstract_methods=None, opaque_calls=None, assume_invariants=True, observe=False):
@@ -843,6 +844,9 @@ class Interp(object):
         self.seen_loop_states = set()
         self.push(st, key, args, subst, None, None)
         work = [st]
+        import time as _time
+        t_end = _time.time() + self.TIME_BUDGET
+        budget0 = self.total_steps
         while work:
             s = work.pop()
             try:
@@ -850,7 +854,7 @@ class Interp(object):
             except Lost as e:
                 self.outcomes.append(Outcome('lost', None, s, self.cur_site(s), str(e)))
             self.total_steps += 1
-            if self.total_steps > self.STEP_BUDGET:
+            if self.total_steps - budget0 > self.STEP_BUDGET or (self.total_steps & 255 == 0 and _time.time() > t_end):
                 for s2 in work:
                     self.outcomes.append(Outcome('lost', None, s2, None, 'step budget exhausted'))
                 self.outcomes.append(Outcome('lost', None, s, None, 'step budget exhausted'))
